@@ -15,6 +15,7 @@ struct Elem {
     int id;
     int key;
     int cleared;            // times handed to the clear callback
+    size_t slot;            // index in Inst::all (O(1) removal)
     struct cstl_slist_node node;
     uint64_t guard2;
 };
@@ -33,6 +34,7 @@ const uint8_t PROFILES[][NOPS] = {
     /* structural   */ {2, 6, 2, 3, 3, 4, 4, 4, 4, 1, 1, 0},
     /* no clear     */ {3, 3, 3, 3, 3, 2, 2, 2, 2, 1, 0, 1},
     /* C15 fill     */ {4, 4, 4, 1, 1, 1, 1, 1, 1, 0, 2, 0},
+    /* scale        */ {0, 200, 0, 0, 6, 0, 0, 0, 0, 0, 0, 0},
 };
 const int NPROFILES = sizeof PROFILES / sizeof PROFILES[0];
 const int KEYS[] = {1, 2, 3, 5, 8};
@@ -96,13 +98,14 @@ struct Inst {
         e->node.n = (struct cstl_slist_node *)0x5a5a5a5a5a5a5a5aull;
         if ((size_t)e->id >= keyof.size()) keyof.resize(e->id + 1);
         keyof[e->id] = key;
+        e->slot = all.size();
         all.push_back(e);
         return e;
     }
     void kill(Elem *e)
     {
-        auto it = std::find(all.begin(), all.end(), e);
-        if (it != all.end()) { *it = all.back(); all.pop_back(); }
+        size_t i = e->slot;
+        if (i < all.size() && all[i] == e) { all[i] = all.back(); all[i]->slot = i; all.pop_back(); }
         memset(e, 0xDD, sizeof *e);
         free(e);
     }
@@ -123,7 +126,7 @@ int visit_cb(void *obj, void *priv)
     return 0;
 }
 
-struct ClearCtx { Inst *in; std::vector<Elem *> *expect; size_t calls; bool bad; };
+struct ClearCtx { Inst *in; std::unordered_set<Elem *> *expect; size_t calls; bool bad; };
 ClearCtx *g_clear_ctx;
 void clear_cb(void *obj, void *priv)
 {
@@ -132,9 +135,8 @@ void clear_cb(void *obj, void *priv)
     (void)priv;
     c->calls++;
     Elem *e = (Elem *)obj;
-    bool found = false;
-    for (Elem *x : *c->expect) if (x == e) found = true;
-    if (!found) { c->bad = true; return; }   // not an element of this list: do not touch
+    if (!c->expect->count(e)) { c->bad = true; return; }   // not an element of this list (or handed over before): do not touch
+    c->expect->erase(e);
     e->cleared++;
     if (e->cleared > 1) { c->bad = true; return; }
     // the callee takes ownership: poison and free
@@ -144,8 +146,10 @@ void clear_cb(void *obj, void *priv)
 // observations made by an op; compared between the cleared list and a fresh twin
 typedef std::vector<long> Obs;
 
+bool g_sparse_skip;     // scale runs: the O(n) audit runs only every 2048th op (and in the epilogue)
 void audit(Inst &in, int li, Obs *obs, const char *clause_pfx)
 {
+    if (g_sparse_skip && !obs) return;
     struct cstl_slist *l = &in.sl[li];
     std::vector<Elem *> &m = in.model[li];
     size_t sz;
@@ -365,7 +369,7 @@ void apply(Inst &in, CaseCtx &cx, int op, uint8_t a, uint8_t b, int K, size_t ma
         break;
     }
     case CLEAR: {
-        std::vector<Elem *> expect = m;
+        std::unordered_set<Elem *> expect(m.begin(), m.end());
         ClearCtx cc{&in, &expect, 0, false};
         g_clear_ctx = &cc;
         size_t n = m.size();
@@ -419,6 +423,8 @@ void vf_run(const uint8_t *data, size_t len)
     bool pending_pb_audit = false;
     size_t nops = 0;
     bool state_marked = false;
+    const bool scale = cur.remaining() / 3 > 5000;
+    g_sparse_skip = false;
     while (cur.remaining() >= 3) {
         uint8_t o = cur.u8(), a = cur.u8(), b = cur.u8();
         if (o == 0xFE) {                // MARK: state snapshot for G1 before the trailer
@@ -427,6 +433,7 @@ void vf_run(const uint8_t *data, size_t len)
         }
         int op = tab[o % tab.size()];
         nops++;
+        g_sparse_skip = scale && (nops % 2048) != 0;
         Pred pred = P_NONE;
         Obs oa, ob;
         bool first_clear = cx.c15 && op == CLEAR && !twin;
@@ -479,6 +486,15 @@ void vf_run(const uint8_t *data, size_t len)
         }
         (void)pending_pb_audit;
     }
+    g_sparse_skip = false;
+    if (scale && !twin) {
+        // epilogue of a scale run: the O(n) operations on a list of ~10^5 elements, each followed by push_back + audit
+        Pred p;
+        for (int op2 : {(int)REVERSE, (int)PUSH_B, (int)SORT, (int)PUSH_B, (int)ERASE_AFTER, (int)PUSH_B})
+            apply(A, cx, op2, 0, op2 == ERASE_AFTER ? 250 : 3, K, maxlive, nullptr, &p);
+        if (nl > 1) { apply(A, cx, CONCAT, 0, 0, K, maxlive, nullptr, &p); apply(A, cx, PUSH_B, 0, 1, K, maxlive, nullptr, &p); apply(A, cx, SWAP, 0, 0, K, maxlive, nullptr, &p); apply(A, cx, PUSH_B, 1, 1, K, maxlive, nullptr, &p); }
+        CNT("class.scale_run");
+    }
     // final audit of every list
     g_cur_op = "final audit";
     for (int i = 0; i < nl; i++) audit(A, i, nullptr, "C13");
@@ -505,6 +521,7 @@ void vf_gen(Rng &r, std::vector<uint8_t> &out)
     else out.push_back(r.byte());                // profile
     out.push_back(r.byte());                     // flags
     size_t n = r.chance(2, 3) ? 1 + r.below(12) : 1 + r.below(200);
+    if (!c15 && r.chance(1, 30000)) { n = 70000 + r.below(70000); out[2] = 0; out[3] = 6; out[4] = 0; }   // scale run
     for (size_t i = 0; i < n; i++) { out.push_back(r.byte() % 251); out.push_back(r.byte()); out.push_back(r.byte()); }
 }
 
